@@ -333,7 +333,7 @@ static void do_alloc(const Op& op) {
   Block* b = new Block();
   b->p = (uint8_t*)r.p; b->req = r.req; b->align = r.align; b->offset = r.offset; b->id = H.next_block_id++;
   b->zchain = r.zero; b->prog = T->prog; b->subproc = T->subproc; b->slot = s;
-  b->heap = (mh >= 0 ? mh : T->deflt);
+  b->heap = (mh >= 0 ? mh : T->deflt); b->tagged = (b->heap >= 0 && H.heaps[b->heap].tag != 0);
   b->full_fill = (op.flags & OPF_FULL_FILL) != 0;
   sched_set_passthrough(true);
   b->usable = mi_usable_size(r.p);
@@ -497,8 +497,8 @@ static void do_realloc(const Op& op) {
   Block* nb = new Block();
   nb->p = (uint8_t*)q; nb->req = newreq; nb->usable = usable; nb->id = H.next_block_id++; nb->align = align; nb->offset = offset;
   nb->prog = T->prog; nb->subproc = T->subproc; nb->slot = s; nb->full_fill = (op.flags & OPF_FULL_FILL) != 0;
-  if (q == p && old) { nb->heap = old->heap; nb->prog = old->prog; nb->subproc = old->subproc; nb->orphan_kind = old->orphan_kind; probe(PR_realloc_inplace); }
-  else { nb->heap = (mh >= 0 ? mh : T->deflt); probe(PR_realloc_moved); }
+  if (q == p && old) { nb->heap = old->heap; nb->prog = old->prog; nb->subproc = old->subproc; nb->orphan_kind = old->orphan_kind; nb->tagged = old->tagged; probe(PR_realloc_inplace); }
+  else { nb->heap = (mh >= 0 ? mh : T->deflt); nb->tagged = (nb->heap >= 0 && H.heaps[nb->heap].tag != 0); probe(PR_realloc_moved); }
   // zero lineage
   bool was_z = old ? old->zchain : true;   // a NULL input behaves as a zeroing allocation for the z-variants
   nb->zchain = zero && was_z && newreq >= oldreq;
@@ -559,8 +559,10 @@ static void do_heap_op(const Op& op) {
         bool compatible = (m.tag == 0 && m.arena_slot < 0);
         // a heap the backing heap cannot absorb abandons its pages: from the first step of the call on another thread may adopt them
         if (!compatible) for (auto& kv : H.live) if (kv.second->heap == mh) { kv.second->heap = -1; kv.second->orphan_kind = (m.tag != 0 ? 2 : 3); if (m.tag != 0) H.tag_orphans_ever++; }
+        if (!compatible) for (Block* lb : H.limbo) if (lb->heap == mh) { lb->heap = -1; lb->orphan_kind = (m.tag != 0 ? 2 : 3); }      // blocks another thread is re-allocating right now
         mi_heap_delete(m.h);
         if (compatible) for (auto& kv : H.live) if (kv.second->heap == mh) kv.second->heap = T->backing;
+        if (compatible) for (Block* lb : H.limbo) if (lb->heap == mh) lb->heap = T->backing;
       }
       H.heaps[mh].alive = false; H.heaps[mh].h = nullptr; T->hslots[hs] = -1;
       if (T->deflt == mh) T->deflt = T->backing;
@@ -670,7 +672,11 @@ static void check_error_callbacks(const Op& op) {
   if (bad) {
     size_t tag_orphans = 0; for (auto& kv : H.live) if (kv.second->orphan_kind == 2) tag_orphans++;
     // (a page of such a heap stays abandoned, and is met by a later reclaim, even after its blocks were freed: the frees stay pending in it)
-    char ctx[160] = ""; if ((bad & EB_EFAULT) && H.tag_orphans_ever) snprintf(ctx, sizeof ctx, " [%zu live blocks were orphaned by the deletion/termination of a tagged heap (%zu of them still live)]", H.tag_orphans_ever, tag_orphans);
+    char ctx[200] = ""; if ((bad & EB_EFAULT) && H.tag_orphans_ever) snprintf(ctx, sizeof ctx, " [%zu live blocks were orphaned by the deletion/termination of a tagged heap (%zu of them still live)]", H.tag_orphans_ever, tag_orphans);
+    // forced abandonment (target_segments_per_thread, mi_collect_reduce) gives pages of a live tagged heap away as well; when that heap may not adopt
+    // (it is destroyable), the pages meet the same situation on their way back
+    size_t tag_live = 0; for (auto& kv : H.live) if (kv.second->tagged) tag_live++;
+    if ((bad & EB_EFAULT) && ctx[0] == 0 && tag_live && (H.forced_abandon_possible || mi_option_get(mi_option_target_segments_per_thread) > 0)) snprintf(ctx, sizeof ctx, " [%zu live blocks of tagged heaps with forced abandonment on: their pages were given away like those orphaned by the deletion/termination of a tagged heap]", tag_live);
     sim_violation("error_callback", "operation %s reported error class 0x%x through the error callback (allowed 0x%x)%s; last message: %.200s", op_names[op.code], bad, allowed, ctx, g_last_out);
   }
   T->got_err_mask = 0; T->got_err_count = 0;
